@@ -1081,6 +1081,38 @@ def family_frontend():
                          '\tres2 := InjectV(Elem{ID: a}, Elem{ID: b}, Elem{ID: c})\n\tvrt.Check(spec2, vrt.Outcome{Result: []int{res2.ID}, CleanupNil: true})\n}\n'),
     }
     specs.append(RawSpec(files, 'variadic provider fed by a slice source; variadic injector', family='frontend'))
+    specs[-1].extra_props = ['C02']
+    # a variadic parameter of interface type: passing the slice itself instead of spreading it still compiles
+    files = {
+        'providers.go': ('package {PKG}\n\nimport "example.com/corpus/vrt"\n\ntype Logger struct{ ID int }\ntype Prefix struct{ ID int }\n\n'
+                         'func NewSinks() []interface{} {\n\tid, _ := vrt.Call(1, false)\n\treturn []interface{}{id, id + 1}\n}\n\n'
+                         'func NewLogger(sinks ...interface{}) Logger {\n\tvar args []int\n\tfor _, s := range sinks {\n\t\tn, ok := s.(int)\n\t\tif !ok {\n\t\t\tn = -1\n\t\t}\n\t\targs = append(args, n)\n\t}\n\tid, _ := vrt.Call(0, false, args...)\n\treturn Logger{ID: id}\n}\n\n'
+                         'func NewLogger2(p Prefix, sinks ...interface{}) Logger {\n\targs := []int{p.ID}\n\tfor _, s := range sinks {\n\t\tn, ok := s.(int)\n\t\tif !ok {\n\t\t\tn = -1\n\t\t}\n\t\targs = append(args, n)\n\t}\n\tid, _ := vrt.Call(0, false, args...)\n\treturn Logger{ID: id}\n}\n'),
+        'wire.go': ('//go:build wireinject\n// +build wireinject\n\npackage {PKG}\n\nimport "github.com/google/wire"\n\n'
+                    'func FromProvider() Logger {\n\tpanic(wire.Build(NewSinks, NewLogger))\n}\n\nfunc FromFirstArg(sinks []interface{}, p Prefix) Logger {\n\tpanic(wire.Build(NewLogger2))\n}\n\nfunc FromVariadicArg(p Prefix, sinks ...interface{}) Logger {\n\tpanic(wire.Build(NewLogger2))\n}\n'),
+        'zz_driver.go': ('//go:build !wireinject\n// +build !wireinject\n\npackage {PKG}\n\nimport "example.com/corpus/vrt"\n\nfunc VDrive() {\n'
+                         '\tspec := &vrt.Spec{Nodes: []vrt.Node{{Name: "NewLogger", Kind: vrt.KFunc, Params: []vrt.Ref{{Node: 1, Comp: 0}, {Node: 1, Comp: 1}}}, {Name: "NewSinks", Kind: vrt.KFunc}}, Result: []vrt.Ref{{Node: 0}}, ArgIDs: make([][]int, 2)}\n'
+                         '\tvrt.Reset()\n\tres := FromProvider()\n\tvrt.Check(spec, vrt.Outcome{Result: []int{res.ID}, CleanupNil: true})\n'
+                         '\ta, b, p := vrt.ArgID("s0"), vrt.ArgID("s1"), vrt.ArgID("p")\n'
+                         '\tspec2 := &vrt.Spec{Nodes: []vrt.Node{{Name: "NewLogger2", Kind: vrt.KFunc, Params: []vrt.Ref{{Node: 2}, {Node: 1, Comp: 0}, {Node: 1, Comp: 1}}}, {Name: "sinks", Kind: vrt.KArg}, {Name: "p", Kind: vrt.KArg}}, Result: []vrt.Ref{{Node: 0}}}\n'
+                         '\tspec2.ArgIDs = [][]int{nil, {a, b}, {p}}\n\tvrt.Reset()\n\tres2 := FromFirstArg([]interface{}{a, b}, Prefix{ID: p})\n\tvrt.Check(spec2, vrt.Outcome{Result: []int{res2.ID}, CleanupNil: true})\n'
+                         '\tvrt.Reset()\n\tres3 := FromVariadicArg(Prefix{ID: p}, a, b)\n\tvrt.Check(spec2, vrt.Outcome{Result: []int{res3.ID}, CleanupNil: true})\n}\n'),
+    }
+    specs.append(RawSpec(files, 'variadic parameter of interface type fed by a provider, by a non-final injector argument and by the injector\'s variadic parameter (the slice must be spread)', family='frontend'))
+    specs[-1].extra_props = ['C02']
+    # a package that is first mentioned by a struct literal / field selection, after a local named like the package exists
+    files = {
+        'providers.go': ('package {PKG}\n\nimport (\n\t"example.com/corpus/vrt"\n\t"example.com/corpus/{PKG}/foo"\n\t"example.com/corpus/{PKG}/bar"\n)\n\ntype Foo struct{ ID int }\ntype Bar struct{ ID int }\ntype N struct{ ID int }\ntype App struct{ ID int }\n\n'
+                         'func NewFoo() Foo {\n\tid, _ := vrt.Call(1, false)\n\treturn Foo{ID: id}\n}\n\nfunc NewBar() Bar {\n\tid, _ := vrt.Call(4, false)\n\treturn Bar{ID: id}\n}\n\nfunc NewN() int {\n\tid, _ := vrt.Call(2, false)\n\treturn id\n}\n\n'
+                         'func NewApp(f Foo, c foo.Config, b Bar, s string) App {\n\tid, _ := vrt.Call(0, false, f.ID, c.N, b.ID, len(s))\n\treturn App{ID: id}\n}\n\nvar _ = bar.Settings{}\n'),
+        'wire.go': ('//go:build wireinject\n// +build wireinject\n\npackage {PKG}\n\nimport (\n\t"github.com/google/wire"\n\t"example.com/corpus/{PKG}/bar"\n\t"example.com/corpus/{PKG}/foo"\n)\n\n'
+                    'func Inject() App {\n\tpanic(wire.Build(NewFoo, NewBar, NewN, wire.Struct(new(foo.Config), "N"), wire.Value(bar.Settings{Name: "abc"}), wire.FieldsOf(new(bar.Settings), "Name"), NewApp))\n}\n'),
+        'zz_driver.go': ('//go:build !wireinject\n// +build !wireinject\n\npackage {PKG}\n\nimport "example.com/corpus/vrt"\n\nfunc VDrive() {\n'
+                         '\tspec := &vrt.Spec{Nodes: []vrt.Node{{Name: "NewApp", Kind: vrt.KFunc, Params: []vrt.Ref{{Node: 1}, {Node: 2}, {Node: 4}, {Node: -1, Const: 3}}}, {Name: "NewFoo", Kind: vrt.KFunc}, {Name: "NewN", Kind: vrt.KFunc}, {Name: "unused", Kind: vrt.KArg}, {Name: "NewBar", Kind: vrt.KFunc}}, Result: []vrt.Ref{{Node: 0}}, ArgIDs: make([][]int, 5)}\n'
+                         '\tvrt.Reset()\n\tres := Inject()\n\tvrt.Check(spec, vrt.Outcome{Result: []int{res.ID}, CleanupNil: true})\n}\n'),
+    }
+    extra = {'foo': {'foo.go': 'package foo\n\ntype Config struct{ N int }\n'}, 'bar': {'bar.go': 'package bar\n\ntype Settings struct{ Name string }\n'}}
+    specs.append(RawSpec(files, 'packages foo and bar first mentioned by a struct literal and by a value expression, after locals named foo and bar exist', family='frontend', extra_pkgs=extra, compile_props=['C01', 'C14']))
     # --- shared sets, aliases, set in another package, three injectors
     files = {
         'providers.go': ('package {PKG}\n\nimport (\n\t"example.com/corpus/vrt"\n\t"example.com/corpus/{PKG}/dep"\n)\n\ntype App struct{ ID int }\ntype Job struct{ ID int }\n\n'
